@@ -34,6 +34,7 @@ type ExecFn func(prefix []int) (*zzvs.Result, string)
 type Opts struct {
 	P         int  // preemption bound (ignored if Unbounded)
 	M         int  // map-order deviation bound (ignored if Unbounded)
+	Delay     bool // P bounds every non-default scheduling choice (delay bounding), not only preemptions
 	Unbounded bool // explore everything, pruned by happens-before state caching
 	MaxExecs  int  // safety cap (0 = none); hitting it clears Exhaustive
 }
@@ -118,6 +119,10 @@ func (e *Explorer) Children(prefix []int) [][]int {
 				if r.Trace[i] != 0 {
 					um++
 				}
+			} else if e.Opt.Delay {
+				if r.Trace[i] != 0 {
+					up++
+				}
 			} else {
 				up += p.Costs[r.Trace[i]]
 			}
@@ -157,6 +162,10 @@ func (e *Explorer) Children(prefix []int) [][]int {
 						if usedM+1 > e.Opt.M {
 							continue
 						}
+					} else if e.Opt.Delay {
+						if usedP+1 > e.Opt.P {
+							continue
+						}
 					} else if usedP+p.Costs[alt] > e.Opt.P {
 						continue
 					}
@@ -170,6 +179,10 @@ func (e *Explorer) Children(prefix []int) [][]int {
 		if p.Kind == "map" {
 			if r.Trace[i] != 0 {
 				usedM++
+			}
+		} else if e.Opt.Delay {
+			if r.Trace[i] != 0 {
+				usedP++
 			}
 		} else {
 			usedP += p.Costs[r.Trace[i]]
